@@ -73,6 +73,29 @@ type Outcome struct {
 	Unclosed bool
 }
 
+// tcpServer adapts a TCP connection to the master's connection interface.
+type tcpServer struct{ *net.TCPConn }
+
+func (t tcpServer) Reset() {
+	t.TCPConn.SetLinger(0)
+	t.TCPConn.Close()
+}
+
+// UseTCP makes Run serve the master over a real loopback TCP socket and lets
+// the driver use its standard dialer (binding of the in-memory network model
+// to real sockets). Set once before the first Run.
+var UseTCP bool
+
+// TCPAvailable reports whether a loopback listener can be opened here.
+func TCPAvailable() bool {
+	l, err := net.Listen("tcp", "127.0.0.1:0")
+	if err != nil {
+		return false
+	}
+	l.Close()
+	return true
+}
+
 // Run executes sc once, free-running.
 func Run(sc *e1.Scenario) Outcome {
 	once.Do(func() {
@@ -91,18 +114,54 @@ func Run(sc *e1.Scenario) Outcome {
 	s.master.AfterPacket = func(ci, i int) {
 		s.mu.Lock()
 		sv := s.srv[ci]
-		s.after[ci] = append(s.after[ci], sv.BytesWritten())
+		if sv != nil {
+			s.after[ci] = append(s.after[ci], sv.BytesWritten())
+		}
 		f := s.onRel
 		s.mu.Unlock()
 		if f != nil {
 			f(ci, i)
 		}
-		if sc.Pacing == "lock" {
+		if sc.Pacing == "lock" && sv != nil {
 			sv.WaitPeerIdle()
 		}
 	}
 	sessions.Store(id, s)
 	defer sessions.Delete(id)
+	dsn := "u:p@nmemx(" + id + ")/d"
+	var lis net.Listener
+	if UseTCP {
+		var lerr error
+		lis, lerr = net.Listen("tcp", "127.0.0.1:0")
+		if lerr != nil {
+			return Outcome{Key: "TCP-UNAVAILABLE"}
+		}
+		defer lis.Close()
+		dsn = "u:p@tcp(" + lis.Addr().String() + ")/d"
+		go func() {
+			for {
+				c, err := lis.Accept()
+				if err != nil {
+					return
+				}
+				s.mu.Lock()
+				refuse := s.sc.Attempts[s.att].DialRefuse
+				var idx int
+				if !refuse {
+					idx = s.master.NewConnLog()
+					s.srv = append(s.srv, nil)
+					s.cli = append(s.cli, nil)
+				}
+				s.mu.Unlock()
+				if refuse {
+					c.(*net.TCPConn).SetLinger(0)
+					c.Close()
+					continue
+				}
+				go s.master.Serve(idx, tcpServer{c.(*net.TCPConn)})
+			}
+		}()
+	}
 
 	var tables []*ref.Table
 	seen := map[string]bool{}
@@ -116,7 +175,7 @@ func Run(sc *e1.Scenario) Outcome {
 	}
 	mapper := hx.NewMapper(tables...)
 	mapper.FailAt, mapper.MismatchAt = sc.MapperFailAt, sc.MapperMismatchAt
-	st, _ := gobinlog.NewStreamer("u:p@nmemx("+id+")/d", sc.ServerID, mapper)
+	st, _ := gobinlog.NewStreamer(dsn, sc.ServerID, mapper)
 	st.SetBinlogPosition(gobinlog.Position{Filename: sc.StartFile, Offset: int64(sc.StartPos)})
 
 	var key strings.Builder
@@ -190,7 +249,7 @@ func Run(sc *e1.Scenario) Outcome {
 						}
 						s.mu.Lock()
 						ok := false
-						if len(s.cli) > nconn {
+						if len(s.cli) > nconn && s.cli[nconn] != nil {
 							ba := s.after[nconn]
 							ok = len(ba) > tr.N && s.cli[nconn].BytesRead() >= ba[tr.N]
 						}
@@ -247,7 +306,7 @@ func Run(sc *e1.Scenario) Outcome {
 	}
 	s.mu.Lock()
 	for _, c := range s.cli {
-		if !c.IsClosed() {
+		if c != nil && !c.IsClosed() {
 			out.Unclosed = true
 		}
 	}
